@@ -70,10 +70,106 @@ def tickrange(ctx, R):
             pa = pow10_atom(e)
             exps_atoms.append(pa[1] if pa else None)
         n_leaves = 0
-        for path, leaf in leaves(lift(tree)):
-            # degenerate branch: span == 0
-            if any(ckey(c.tree).startswith("cmp(eq") and taken for c, taken in path):
+        # The tree branches only on comparisons of err = m/span * 10^floor(log10(span/m)) with constants (whatever their
+        # boolean structure: elif chains, a table scanned with break, ...).  err lies in (0.1, 1]; the constants cut
+        # that range into elementary pieces (each threshold itself, and each open interval between two thresholds); on
+        # each piece every comparison has a definite value, so the tree is evaluated concretely there.
+        want_err = [m * Num.atom(x) / span for x in exps_atoms if x is not None]
+        thresholds = set()
+        err_ok = [True]
+
+        def scan(t):
+            if isinstance(t, tuple):
+                if t[0] == "cmp" and t[1] in ("le", "lt", "ge", "gt", "eq", "ne"):
+                    l, r = as_num(t[2]), as_num(t[3])
+                    if l is not None and r is not None:
+                        if r.is_const() and any(l.equals(w) for w in want_err):
+                            thresholds.add(r.const_value())
+                            return
+                        if l.is_const() and any(r.equals(w) for w in want_err):
+                            thresholds.add(l.const_value())
+                            return
+                        if (r.is_const() and not l.is_const()) or (l.is_const() and not r.is_const()):
+                            other = l if r.is_const() else r
+                            if "pow" in other.key() and not any(other.equals(w) for w in want_err):
+                                err_ok[0] = False
+                for x in t[1:]:
+                    scan(x)
+
+        def conds_of(v):
+            if isinstance(v, Phi):
+                if isinstance(v.cond, Cond):
+                    scan(v.cond.tree)
+                conds_of(v.a)
+                conds_of(v.b)
+            elif isinstance(v, Seq):
+                for x in v.items:
+                    conds_of(x)
+
+        conds_of(tree)
+
+        def ceval(t, e):
+            """Value of a condition tree for err == e (Fraction); None if it does not depend on err alone."""
+            if isinstance(t, tuple):
+                if t[0] == "not":
+                    v = ceval(t[1], e)
+                    return None if v is None else not v
+                if t[0] in ("and", "or"):
+                    vs = [ceval(x, e) for x in t[1:]]
+                    if t[0] == "and":
+                        return False if any(v is False for v in vs) else (None if any(v is None for v in vs) else True)
+                    return True if any(v is True for v in vs) else (None if any(v is None for v in vs) else False)
+                if t[0] == "cmp":
+                    l, r = as_num(t[2]), as_num(t[3])
+                    if l is None or r is None:
+                        return None
+                    lv = e if any(l.equals(w) for w in want_err) else (l.const_value() if l.is_const() else None)
+                    rv = e if any(r.equals(w) for w in want_err) else (r.const_value() if r.is_const() else None)
+                    if lv is None or rv is None:
+                        # the degenerate test span == 0 is false here
+                        if t[1] == "eq" and ((l.is_const() and l.const_value() == 0) or (r.is_const() and r.const_value() == 0)):
+                            return False
+                        if t[1] == "ne" and ((l.is_const() and l.const_value() == 0) or (r.is_const() and r.const_value() == 0)):
+                            return True
+                        return None
+                    return {"lt": lv < rv, "le": lv <= rv, "gt": lv > rv, "ge": lv >= rv, "eq": lv == rv, "ne": lv != rv}[t[1]]
+            return None
+
+        def select(v, e):
+            while isinstance(v, Phi):
+                c = ceval(v.cond.tree, e) if isinstance(v.cond, Cond) else (bool(v.cond.v) if isinstance(v.cond, Const) else None)
+                if c is None:
+                    return None
+                v = v.a if c else v.b
+            if isinstance(v, Seq):
+                items = [select(x, e) for x in v.items]
+                if any(x is None for x in items):
+                    return None
+                return Seq(v.kind, items)
+            return v
+
+        cuts = sorted(t_ for t_ in thresholds if Fraction(1, 10) < t_ < 1)
+        pieces = []  # (lo, hi, closed_hi, sample)
+        prev = Fraction(1, 10)
+        for t_ in cuts + [Fraction(1)]:
+            pieces.append((prev, t_, False, (prev + t_) / 2))
+            pieces.append((t_, t_, True, t_))
+            prev = t_
+        groups = []  # merged pieces with the same leaf: [elo, ehi, leaf]
+        undecided_piece = False
+        for lo_, hi_, pt, sample in pieces:
+            leaf = select(tree, sample)
+            if leaf is None:
+                undecided_piece = True
                 continue
+            if groups and key(groups[-1][2]) == key(leaf):
+                groups[-1][1] = hi_
+            else:
+                groups.append([lo_, hi_, leaf])
+        if undecided_piece:
+            R.undecided("C13.TICKRANGE", "%s decision tree" % order, where(f), "the tick range branches on something other than comparisons of the error ratio with constants")
+        R.check(err_ok[0], "C13.COUNT", "%s err" % order, where(f), "thresholds compare m/span*10^k", "a threshold test is not on err = m/span*10^floor(log10(span/m))")
+        for elo, ehi, leaf in groups:
             if not isinstance(leaf, Seq) or len(leaf.items) != 3:
                 R.bad("C13.RANGE", "%s leaf %s" % (order, show(leaf, 80)), where(f), "tick range is not a (start, stop, step) triple: %s" % show(leaf))
                 continue
@@ -82,39 +178,10 @@ def tickrange(ctx, R):
                 R.bad("C13.RANGE", "%s leaf" % order, where(f), "non-numeric tick range %s" % show(leaf))
                 continue
             n_leaves += 1
-            # interval of err on this path
-            elo, ehi = Fraction(1, 10), Fraction(1)
-            err_ok = True
-            for c, taken in path:
-                t = c.tree
-                if t[0] == "cmp" and t[1] in ("le", "lt"):
-                    l, r = as_num(t[2]), as_num(t[3])
-                    if r is not None and r.is_const() and l is not None:
-                        # err <= thr
-                        pa = None
-                        thr = r.const_value()
-                        if taken:
-                            ehi = min(ehi, thr)
-                        else:
-                            elo = max(elo, thr)
-                        want = [m * Num.atom(x) / span for x in exps_atoms if x is not None]
-                        if not any(l.equals(w) for w in want):
-                            err_ok = False
-                    elif l is not None and l.is_const() and r is not None:
-                        thr = l.const_value()  # thr <= err
-                        if taken:
-                            elo = max(elo, thr)
-                        else:
-                            ehi = min(ehi, thr)
-                    else:
-                        err_ok = False
-            if elo >= ehi:
-                continue  # infeasible path
             pk = pow10_atom(step)
             tag = "%s err in (%s, %s]" % (order, elo, ehi)
             ok125 = pk is not None and pk[1] in exps_atoms and pk[0] in (1, 2, 5, 10)
             R.check(ok125, "C13.P125", tag, where(f), "step = %s * 10^floor(log10(span/m))" % (pk[0] if pk else "?"), "step %s is not {1,2,5,10} x 10^floor(log10(span/m))" % step.key())
-            R.check(err_ok, "C13.COUNT", tag + " err", where(f), "thresholds compare m/span*10^k", "threshold test is not on err = m/span*10^floor(log10(span/m))")
             if ok125:
                 k = pk[0]
                 rlo, rhi = 1 / (k * ehi), 1 / (k * elo)
